@@ -11,10 +11,13 @@
 A document is a *spec* (plain JSON, stored in the replay file):
 
   {"fmt": "odt", "parts": 2,                       # number of distinct picture files
-   "units": [{"text": V, "title": V, "pics": [{"part": 0, "name": V, "title": V, "desc": V, "boxed": false}, ...]}, ...],
+   "units": [{"text": V, "title": V, "pics": [{"part": 0, "name": V, "title": V, "desc": V, "boxed": false, "w": L, "h": L}, ...]}, ...],
    "meta": {"title": V, "creator": V, "subject": V, "keywords": V, "description": V}}
 
-with V = null (absent) | "" (present, empty) | " " | "some text".  `build(spec)` -> (file name, bytes).
+with V = null (absent) | "" (present, empty) | " " | "some text"; L (optional) = the size of the placement as the file
+spells it (ODF svg:width / svg:height, HTML / EPUB img width / height): null = attribute absent, otherwise ANY string of
+the lexical space of c04_values (units the library converts or not, hundreds of digits, other scripts' digits, junk).
+`build(spec)` -> (file name, bytes).
 """
 from __future__ import annotations
 
@@ -41,8 +44,8 @@ def _el(tag, v, attrs=""):
 
 
 def _at(name, v):
-    """an optional attribute: absent / name="" / name="text" """
-    return "" if v is None else f' {name}="{_x(v)}"'
+    """an optional attribute: absent / name="" / name="text" (tab / newline as character references, so that they reach the parser's value)"""
+    return "" if v is None else f' {name}="{_x(v)}"'.replace("\t", "&#9;").replace("\n", "&#10;").replace("\r", "&#13;")
 
 
 def picture(k: int) -> bytes:
@@ -216,7 +219,7 @@ ODF_MIME = {"odt": "application/vnd.oasis.opendocument.text", "odp": "applicatio
 
 
 def _odf_frame(p, k, fmt):
-    inner = (f'<draw:frame{_at("draw:name", p.get("name"))} svg:x="1cm" svg:y="{k + 1}cm" svg:width="2cm" svg:height="1cm">'
+    inner = (f'<draw:frame{_at("draw:name", p.get("name"))} svg:x="1cm" svg:y="{k + 1}cm"{_at("svg:width", p.get("w", "2cm"))}{_at("svg:height", p.get("h", "1cm"))}>'
              f'<draw:image xlink:href="{"./" if p.get("via") == "dot" else ""}Pictures/{_img(p)}.png" xlink:type="simple"/>'
              + _el("svg:title", p.get("title")) + _el("svg:desc", p.get("desc")) + "</draw:frame>")
     if p.get("boxed") and fmt == "odt":
@@ -276,7 +279,7 @@ def build_odf(spec):
 def _html_body(u, src):
     imgs = []
     for p in u["pics"]:
-        img = f'<img src="{src(p)}"' + _at("alt", p.get("desc")) + _at("title", p.get("title")) + "/>"
+        img = f'<img src="{src(p)}"' + _at("alt", p.get("desc")) + _at("title", p.get("title")) + _at("width", p.get("w")) + _at("height", p.get("h")) + "/>"
         if p.get("boxed"):
             img = "<figure>" + img + _el("figcaption", p.get("caption")) + "</figure>"
         imgs.append(img)
@@ -362,7 +365,24 @@ def fixed_specs(fmt):
     return out
 
 
-def random_spec(rng, fmt):
+VALUE_FORMATS = ["odt", "odp", "ods", "odg", "epub", "html"]
+
+
+def value_specs(fmt, forms, per_doc=10):
+    """documents whose picture placements spell their size in every given lexical form (width and height alternate)"""
+    forms = [f for f in forms]
+    out = []
+    for i in range(0, len(forms), per_doc):
+        pics = []
+        for k, f in enumerate(forms[i:i + per_doc]):
+            pics.append(_pic(0, f"p{k}", None, None, w=f, h="1cm") if k % 2 == 0 else _pic(0, f"p{k}", None, None, w="2cm", h=f))
+        pics.append(_pic(0, "unsized", None, None, w=None, h=None))
+        out.append({"fmt": fmt, "parts": 1, "meta": {"title": "sizes"}, "units": [{"text": "x", "title": "T", "pics": pics[:len(pics) // 2]},
+                                                                                  {"text": "y", "title": "U", "pics": pics[len(pics) // 2:]}]})
+    return out
+
+
+def random_spec(rng, fmt, length=None):
     parts = rng.randint(1, 3)
 
     def v():
@@ -380,6 +400,11 @@ def random_spec(rng, fmt):
     meta = {f: v() for f in META_FIELDS if rng.random() < 0.8}
     if rng.random() < 0.3:
         meta["revision"] = rng.choice([None, "", " ", "3", "x"])
+    if length is not None and fmt in VALUE_FORMATS:   # sizes as the file spells them (drawn last: the rest of the document does not depend on it)
+        for u in units:
+            for p in u["pics"]:
+                if rng.random() < 0.5:
+                    p["w"], p["h"] = length(rng), length(rng)
     return {"fmt": fmt, "parts": parts, "units": units, "meta": meta}
 
 
